@@ -251,6 +251,7 @@ class DirectCollocation(SamplingMethod):
         opti = master.opti if hasattr(master, 'opti') else master
         opti.cache_advanced()
         initial = HashOrderedDict(initial)
+        self.horizon_guesses_first(stage, initial)
         algs = get_ranges_dict(stage.algebraics)
         initial_alg = HashDict()
         for a, v in list(initial.items()):
